@@ -1,5 +1,8 @@
 import Spake2Verif.Proofs.PropAuxB5
 import Spake2Verif.Proofs.PropAuxB7
+import Spake2Verif.Proofs.PropAuxC1
+import Spake2Verif.Proofs.PropAuxC3
+import Spake2Verif.Proofs.PropAuxC4
 /-!
 # C14 — Password-to-scalar and seed-to-element derivations are exact and in-group
 
@@ -20,6 +23,14 @@ Clause → theorem
 * Ed25519: try-and-increment from the HKDF-derived y, ×8   : `arb_ed_def` (the loop, one step), `arb_ed_candidates` (the candidate point, its
                                                             multiple by 8, the acceptance test, spelled out), `arb_ed_first_point` (the result is
                                                             `8·P` for the **first** candidate at or after y that is on the curve with `8·P ≠ 0`)
+  the final assertion `L·(8·P) = identity` never fails    : `ed_curve_card` (both shipped curve records: the point group has exactly `8·L` elements),
+                                                            `arb_ed_assert_holds` (every usable candidate passes), `arb_ed_never_asserts` (loop and
+                                                            `arbitrary_element` never return `AssertionError`; any `CurveOK` curve with `8·L` points),
+                                                            `arb_ed_never_asserts_ed25519` (generated constants and RFC literals, every seed)
+  complete outcome under the model's bound of 4096         : `arb_ed_total` (+ `_ed25519`, `_ed25519_published`): either no usable candidate among
+                                                            `y … y+4095` (`Fuel`), or `.ok` of `8·P` for the first one — valid, **non-identity**, killed by L
+* integer groups, exact class of K3 (**hypothesis: p prime**): `arb_int_never_identity_partial` (`AssertionError` ⇔ `q ∤ p-1` or `h = 0`; identity ⇔
+                                                            `h ≠ 0 ∧ h^((p-1)/q) ≡ 1`; otherwise a member ≠ identity), `pow3_eq_one_iff_zmod`
 * member of the subgroup                                   : `arb_member` (every group with a `GroupSpec`), `arb_member_int` (explicit),
                                                             `arb_member_ed` (valid, **non-identity**, killed by L — from the code's own tests
                                                             and the ladder theorems)
@@ -31,7 +42,9 @@ Assumed / partial — **read this**
 * **"non-identity member" is FALSE for integer groups in general** and cannot be repaired inside the published
   construction: on `IntegerGroup(23, 11, 2)` the seed `b"s5"` yields the identity and `b"s0"` makes `arbitrary_element` raise
   `AssertionError` (`known_finding_K3`, kernel evaluation of the model; replayed on the real code as known finding K3).  For
-  integer groups only *membership* is proved (`arb_member_int`); for Ed25519 non-identity is proved (`arb_member_ed`).
+  integer groups only *membership* is proved (`arb_member_int`) — plus, for prime p, the exact set of seeds on which the
+  construction asserts or returns the identity (`arb_int_never_identity_partial`); for Ed25519 non-identity is proved
+  (`arb_member_ed`) and the construction never asserts (`arb_ed_never_asserts_ed25519`).
 * "prime-order subgroup": for integer groups membership means `0 < e < p ∧ e^q ≡ 1 (mod p)`; that this set is a group of
   prime order q needs **p prime, which is not proved** for the three shipped moduli (see C18).  `arb_int_total` carries
   `Nat.Prime p` as a hypothesis.
@@ -39,8 +52,12 @@ Assumed / partial — **read this**
   seeds `M`, `N`, `symmetric` in the four groups; it lives in `Spake2Verif/Proofs/PublishedEval*.lean` (not in this file).
 * `Sha.hkdf` is the project's own executable HKDF-SHA256; its agreement with `hkdf.Hkdf(salt=b"", …).expand` is established
   by the byte-exact correspondence runs (lengths 0, 1, 31–33, 55–56, 63–65, 200), not by a theorem.
-* `arb_ed_first_point` is stated for the model's loop bound of 4096 candidates (the Python loop is unbounded; about half
-  of all y are x-coordinates of curve points, so the bound is not reached in practice — not proved).
+* `arb_ed_first_point` / `arb_ed_total` are stated for the model's loop bound of 4096 candidates (the Python loop is unbounded;
+  about half of all y are x-coordinates of curve points, so the bound is not reached in practice — not proved; for the three
+  shipped seeds it is not reached: `PublishedEval*`).  The clause "(or the `L`-torsion assertion fails)" of `arb_ed_first_point`
+  is discharged by `arb_ed_assert_holds`: on the shipped curve (generated constants and RFC literals) the assertion cannot fail.
+* `arb_int_never_identity_partial` pins K3 down exactly but, like `arb_int_total`, carries `Nat.Prime p` as a hypothesis; for
+  composite `p` only `arb_int_def` / `arb_member_int` apply.
 -/
 namespace Spake2Verif.C14
 open Spake2Model Spake2Model.Gen Spake2Verif.PropAuxB
@@ -187,6 +204,94 @@ theorem arb_member_ed25519 (seed : Bytes) (e : EdElem) (he : (edGroup ed25519).a
     specGen.Valid e ∧ specGen.abs e ≠ 0 ∧ (Ed.L_c : ℤ) • specGen.abs e = 0 :=
   (arb_member_ed ed25519 curveOK_gen seed e he).2
 
+/-! ### Ed25519: the final assertion of `arbitrary_element` never fails -/
+
+/-- the groups of curve points behind the two shipped curve records (constants generated from the current source; RFC 8032
+literals) have exactly `8·L` elements (`Proofs/PropAuxC1.lean`: a point of order exactly 8 checked by the code's own ladder,
+the base point of prime order `L`, Lagrange, and `#E ≤ 2Q < 16L`) -/
+theorem ed_curve_card :
+    Nat.card specGen.A = 8 * ed25519.L.toNat ∧ Nat.card specPublished.A = 8 * Published.curve.L.toNat :=
+  ⟨specGen_card, specPublished_card⟩
+
+/-- **a usable candidate always passes the code's final assertion**: on a curve whose point group has `8·L` elements, whenever
+the candidate `(x', y')` is on the curve and `8·(x', y')` is not the identity (`arbGood`), `L·(8·(x', y'))` IS the identity,
+as computed by the code's own safe ladder and zero test -/
+theorem arb_ed_assert_holds (c : Curve) (h : CurveOK c) (hcard : Nat.card (ed25519Spec c h).A = 8 * c.L.toNat)
+    (y plus : Int) (hg : arbGood c y plus = true) :
+    Ed.is_extended_zero c.Q (Ed.scalarmult_element_safe_slow c.Q c.d (arbTimes8 c y plus) c.L) = true :=
+  arbGood_assert_holds h hcard y plus hg
+
+/-- … hence the loop, from any starting point and with any fuel, and `arbitrary_element` itself **never return
+`AssertionError`**; and one step of the loop simplifies to "take `8·P` for a good candidate, else move on" -/
+theorem arb_ed_never_asserts (c : Curve) (h : CurveOK c) (hcard : Nat.card (ed25519Spec c h).A = 8 * c.L.toNat) :
+    (∀ seed : Bytes, (edGroup c).arb seed ≠ raise .AssertionError) ∧
+    (∀ (y : Int) (fuel : Nat) (plus : Int), Ed25519.arbLoop c y fuel plus ≠ raise .AssertionError) ∧
+    (∀ (y : Int) (fuel : Nat) (plus : Int), Ed25519.arbLoop c y (fuel + 1) plus =
+      if arbGood c y plus then .ok ⟨.elem, arbTimes8 c y plus⟩ else Ed25519.arbLoop c y fuel (plus + 1)) :=
+  ⟨ed_arb_never_asserts h hcard, arbLoop_never_asserts h hcard, arbLoop_succ' h hcard⟩
+
+/-- the two shipped curve records: `arbitrary_element` never raises `AssertionError`, for every seed -/
+theorem arb_ed_never_asserts_ed25519 (seed : Bytes) :
+    (edGroup ed25519).arb seed ≠ raise .AssertionError ∧
+    (edGroup Published.curve).arb seed ≠ raise .AssertionError :=
+  ⟨ed_arb_never_asserts curveOK_gen specGen_card seed, ed_arb_never_asserts curveOK_published specPublished_card seed⟩
+
+/-- **the complete outcome, with the model's bound of 4096 candidates**: with `y` the HKDF-derived start value, either none
+of the candidates `y, y+1, …, y+4095` is a curve point with `8·P ≠ 0` and the model reports `Fuel` (the Python loop would go
+on), or `arbitrary_element` returns the `Element` holding `8·P` for the FIRST such candidate, and that element is valid,
+**not the identity**, and killed by `L` -/
+theorem arb_ed_total (c : Curve) (h : CurveOK c) (hcard : Nat.card (ed25519Spec c h).A = 8 * c.L.toNat)
+    (seed : Bytes) (y : Int) (hy : y = (beToNat (Sha.hkdf seed [] (asciiOf "SPAKE2 arbitrary element") 48) : Int) % c.Q) :
+    (((edGroup c).arb seed = raise .Fuel ∧ ∀ k : ℕ, k < 4096 → arbGood c y (k : ℤ) = false) ∨
+     (∃ n : ℕ, n < 4096 ∧ (∀ k : ℕ, k < n → arbGood c y (k : ℤ) = false) ∧ arbGood c y (n : ℤ) = true ∧
+       (edGroup c).arb seed = .ok ⟨.elem, arbTimes8 c y (n : ℤ)⟩ ∧
+       (ed25519Spec c h).Valid ⟨.elem, arbTimes8 c y (n : ℤ)⟩ ∧
+       (ed25519Spec c h).abs ⟨.elem, arbTimes8 c y (n : ℤ)⟩ ≠ 0 ∧
+       (c.L : ℤ) • (ed25519Spec c h).abs ⟨.elem, arbTimes8 c y (n : ℤ)⟩ = 0)) :=
+  ed_arb_total h hcard seed y hy
+
+/-- `arb_ed_total` for the curve record generated from the current source -/
+theorem arb_ed_total_ed25519 (seed : Bytes) (y : Int) (hy : y = (beToNat (Sha.hkdf seed [] (asciiOf "SPAKE2 arbitrary element") 48) : Int) % ed25519.Q) :
+    (((edGroup ed25519).arb seed = raise .Fuel ∧ ∀ k : ℕ, k < 4096 → arbGood ed25519 y (k : ℤ) = false) ∨
+     (∃ n : ℕ, n < 4096 ∧ (∀ k : ℕ, k < n → arbGood ed25519 y (k : ℤ) = false) ∧ arbGood ed25519 y (n : ℤ) = true ∧
+       (edGroup ed25519).arb seed = .ok ⟨.elem, arbTimes8 ed25519 y (n : ℤ)⟩ ∧
+       specGen.Valid ⟨.elem, arbTimes8 ed25519 y (n : ℤ)⟩ ∧
+       specGen.abs ⟨.elem, arbTimes8 ed25519 y (n : ℤ)⟩ ≠ 0 ∧
+       (ed25519.L : ℤ) • specGen.abs ⟨.elem, arbTimes8 ed25519 y (n : ℤ)⟩ = 0)) :=
+  ed_arb_total curveOK_gen specGen_card seed y hy
+
+/-- `arb_ed_total` for the curve record of RFC 8032 literals -/
+theorem arb_ed_total_ed25519_published (seed : Bytes) (y : Int) (hy : y = (beToNat (Sha.hkdf seed [] (asciiOf "SPAKE2 arbitrary element") 48) : Int) % Published.curve.Q) :
+    (((edGroup Published.curve).arb seed = raise .Fuel ∧ ∀ k : ℕ, k < 4096 → arbGood Published.curve y (k : ℤ) = false) ∨
+     (∃ n : ℕ, n < 4096 ∧ (∀ k : ℕ, k < n → arbGood Published.curve y (k : ℤ) = false) ∧ arbGood Published.curve y (n : ℤ) = true ∧
+       (edGroup Published.curve).arb seed = .ok ⟨.elem, arbTimes8 Published.curve y (n : ℤ)⟩ ∧
+       specPublished.Valid ⟨.elem, arbTimes8 Published.curve y (n : ℤ)⟩ ∧
+       specPublished.abs ⟨.elem, arbTimes8 Published.curve y (n : ℤ)⟩ ≠ 0 ∧
+       (Published.curve.L : ℤ) • specPublished.abs ⟨.elem, arbTimes8 Published.curve y (n : ℤ)⟩ = 0)) :=
+  ed_arb_total curveOK_published specPublished_card seed y hy
+
+/-! ### integer groups: exactly when the construction asserts or yields the identity (the class of K3) -/
+
+/-- **exact characterisation, p prime (hypothesis), q > 0**, for every seed; `h` is the reduced HKDF output, `r = (p-1) // q`
+(the generator `g` does not enter `arbitrary_element`):
+* `AssertionError`  ⇔  `r·q ≠ p-1` (q does not divide p-1), or `h = 0` (then the candidate `0^r = 0` fails `_is_member`);
+* the identity `1`  ⇔  `r·q = p-1`, `h ≠ 0` and `pow(h, r, p) = 1` (h is an r-th root of unity mod p);
+* in every other case the result is `pow(h, r, p)`, a member (`0 < e < p`, `pow(e, q, p) = 1`) **different from the identity** -/
+theorem arb_int_never_identity_partial (P : IntGroupParams) (hpp : Nat.Prime P.p.toNat) (hq : 0 < P.q) (seed : Bytes)
+    (h r : Int) (hh : h = (beToNat (Sha.hkdf seed [] (asciiOf "SPAKE2 arbitrary element") (sizeBytes P.p)) : Int) % P.p) (hr : r = Int.fdiv (P.p - 1) P.q) :
+    ((intGroup P).arb seed = raise .AssertionError ↔ (r * P.q ≠ P.p - 1 ∨ h = 0)) ∧
+    ((intGroup P).arb seed = .ok (intGroup P).zero ↔ (r * P.q = P.p - 1 ∧ h ≠ 0 ∧ Py.pow3 h r P.p = 1)) ∧
+    (r * P.q = P.p - 1 → h ≠ 0 → Py.pow3 h r P.p ≠ 1 →
+      ∃ e : Int, (intGroup P).arb seed = .ok e ∧ e = Py.pow3 h r P.p ∧ e ≠ (intGroup P).zero ∧
+        0 < e ∧ e < P.p ∧ Py.pow3 e P.q P.p = 1) :=
+  ⟨(PropAuxC.ig_arb_char P hpp hq seed h r hh hr).1, (PropAuxC.ig_arb_char P hpp hq seed h r hh hr).2.1,
+   PropAuxC.ig_arb_member_ne_one P hpp hq seed h r hh hr⟩
+
+/-- the condition `pow(h, r, p) = 1` in `ZMod p`: `h^r = 1` -/
+theorem pow3_eq_one_iff_zmod {p r : Int} (hp : 1 < p) (hr : 0 ≤ r) (h : Int) :
+    Py.pow3 h r p = 1 ↔ (h : ZMod p.toNat) ^ r.toNat = 1 :=
+  IntGroupSpec.pow3_eq_one_iff hp hr h
+
 /-! ### the recorded finding K3 -/
 
 /-- **K3**: on the toy group `IntegerGroup(23, 11, 2)` "non-identity for every seed" is false — `arbitrary_element(b"s5")` is
@@ -205,6 +310,22 @@ theorem known_finding_K3 :
   · decide +kernel
 
 /-! ### non-vacuity -/
+
+/-- K3 through the characterisation: on `IntegerGroup(23, 11, 2)` (`r = 2`) the seed `b"s5"` has `h = 252 mod 23 = 22 ≡ -1`,
+an `r`-th root of unity, so the result is the identity; `b"s0"` has `h = 0`, so the construction asserts -/
+example :
+    (intGroup ⟨23, 11, 2⟩).arb (asciiOf "s5") = .ok (1 : Int) ∧
+    (intGroup ⟨23, 11, 2⟩).arb (asciiOf "s0") = raise .AssertionError :=
+  ⟨(arb_int_never_identity_partial ⟨23, 11, 2⟩ (by decide) (by decide) (asciiOf "s5") 22 2
+      (by decide +kernel) (by decide)).2.1.2 ⟨by decide, by decide, by decide⟩,
+   (arb_int_never_identity_partial ⟨23, 11, 2⟩ (by decide) (by decide) (asciiOf "s0") 0 2
+      (by decide +kernel) (by decide)).1.2 (Or.inr rfl)⟩
+
+/-- the Ed25519 outcome is not vacuous: for the seed `b"M"` the first usable candidate is found within the bound
+(kernel evaluation `PublishedEval.generated_M_ed`, C03), so the second alternative of `arb_ed_total_ed25519` is the one that
+holds; in particular the result is not `Fuel` -/
+example : (edGroup ed25519).arb Consts.seedM ≠ raise .Fuel ∧ (edGroup ed25519).arb Consts.seedM ≠ raise .AssertionError :=
+  ⟨PropAuxC.ed_arb_M_not_fuel, (arb_ed_never_asserts_ed25519 Consts.seedM).1⟩
 
 /-- an ordinary seed on the toy group: `arbitrary_element(b"s1") = 3`, a member (`3^11 ≡ 1 mod 23`) different from the identity -/
 example : IG.arb ⟨23, 11, 2⟩ (asciiOf "s1") = .ok 3 ∧ Py.pow3 3 11 23 = 1 := by decide +kernel
